@@ -66,6 +66,31 @@ CLAIMED["C06"] = dict(
     technique="Coq proof over the build model + generated entry-point forwarding table + exhaustive small null patterns in correspondence",
     design="8 C06")
 
+CLAIMED["C04"] = dict(
+    text="Gallina model `replay` of spec reuse (rehydrated scoped terms, pinned categories, _enforce_structure). Theorems: any successful reuse has "
+         "exactly the recorded column names in the recorded order, on every data set; pinned encodings have data-independent names; absent levels give "
+         "zero columns; cells are row-wise. The model equals the implementation (exact matrix, names, drop set or error class) on train/follow-up "
+         "histories incl. pickled specs; reproduction, row-wise behaviour and pickling are checked directly for every stateful transform.",
+    note="Coq kernel + vm_compute; pickling and stateful transforms (center/scale/poly/bs/cr/cc) are outside the replay model and covered by the direct oracle; replay_reproduces/replay_rowwise at matrix level not mechanised",
+    technique="Coq proof over the replay model + in-Coq correspondence of (train, follow-up) histories + implementation-level row-wise oracle",
+    design="8 C04")
+CLAIMED["C07"] = dict(
+    text="Model `build_parts`: all parts' factors pooled and evaluated once, one joint drop set, every part assembled from the shared pool. Theorems: "
+         "one output part per formula part in order; all parts report one drop set = caller's rows u nulls of the factors of all parts. The model's "
+         "parts equal the implementation's; shape, row alignment, equality with separate builds under the joint drop set and regeneration from each "
+         "part's spec are checked directly on nested ~ / | / tuple / keyword formulas.",
+    note="Coq kernel + vm_compute; nested structure <-> flat part list mapped by the harness; `part_equals_separate_build` not mechanised (correspondence + oracle)",
+    technique="Coq proof over the pooled-build model + in-Coq correspondence of structured model matrices",
+    design="8 C07")
+CLAIMED["C09"] = dict(
+    text="Replay model with the recorded-kind guard. Theorems: a factor whose kind differs from the recorded kind yields the encoding error, and only "
+         "that does; successful reuse never adds/removes/renames columns; absent levels give all-zero columns; rows with unseen levels are zero in "
+         "that factor's columns. Model outcome = implementation outcome on (train, follow-up) pairs with kind flips and lost/gained levels; "
+         "exception class, DataMismatchWarning and shapes checked directly.",
+    note="Coq kernel + vm_compute; pandas Categorical(categories=...) semantics modelled; null policy 'raise' not combined with kind flips (order of simultaneous errors is hash-order dependent)",
+    technique="Coq proof over the replay model + in-Coq correspondence of incompatible-data pairs",
+    design="8 C09")
+
 NOT_YET = {}
 
 
